@@ -510,13 +510,25 @@ func runParse(pc *parseCase) (coq string, rec map[string]interface{}) {
 		seenT = fmt.Sprintf("(Some (%s, %s))", cZ(rt.seen[0]), cZ(rt.seen[1]))
 		rec["time_validator_args"] = rt.seen
 	}
+	// the same bytes again, and once more after another request, on the same parser instance
+	stable := true
+	for k := 0; k < 3; k++ {
+		if k == 2 {
+			p.Parse(ns, []byte(`{"type":"update","didSuffix":"x","revealValue":"y","signedData":"a.b.c","delta":{}}`))
+		}
+		op2, err2 := p.Parse(ns, pc.bytes)
+		if (err2 == nil) != (err == nil) || (err == nil && (op2.UniqueSuffix != op.UniqueSuffix || op2.Type != op.Type)) {
+			stable = false
+		}
+	}
+	rec["same_answer_when_resubmitted"] = stable
 	seenO := "None"
 	if ro.seen != nil {
 		seenO = "(Some " + cJSON(normJSON(*ro.seen)) + ")"
 	}
 	var reqTree interface{}
 	json.Unmarshal(pc.bytes, &reqTree)
-	coq = fmt.Sprintf("(mk_c07 %s %s %s %s %s %s %s %s %s %s %s %s)", coqProtocol(pc.cfg), cStr(ns), cStr(string(pc.bytes)), impl, cBool(bytesSame),
+	coq = fmt.Sprintf("(mk_c07 %s %s %s %s %s %s %s %s %s %s %s %s %s)", coqProtocol(pc.cfg), cStr(ns), cStr(string(pc.bytes)), impl, cBool(bytesSame), cBool(stable),
 		seenT, seenO, cBool(pc.expect), cStr(pc.suffix), cJSON(normJSON(pc.origin)), cBool(pc.rejectTime), cBool(pc.rejectOrigin))
 	coq = strings.Replace(coq, "(mk_c07 ", "(mk_c07 "+urlOracle(reqTree)+" ", 1)
 	return
@@ -614,12 +626,13 @@ func genC03(seed int64, tier string) []caseOut {
 		case 2:
 			sp.origin = 12345.0
 		case 3: // spellings a "normalising" parser would fold together: the suffix must still cover the submitted bytes
-			sp.origin = []string{"https://origin.example/", "origin.example/", "https://Origin.Example", " origin.example ", "https://origin.example//", "https://origin.example/a/../"}[r.Intn(6)]
+			sp.origin = []string{"https://origin.example/", "origin.example/", "https://Origin.Example", " origin.example ", "https://origin.example//", "https://origin.example/a/../",
+				"https://origin.example/Ł", "https://origin.example/A", "原点.example", "origine-é.example", "o\u0141"}[r.Intn(11)]
 		case 4:
 			sp.origin = A{"https://a.example/", M{"b": "x/"}}
 		}
 		if r.Intn(2) == 0 {
-			sp.sdType = "kind1"
+			sp.sdType = []string{"kind1", "kind1", "kínd", "種類"}[r.Intn(4)]
 		}
 		d := &didState{r: r, cfg: cfg, code: code, kinds: keyKinds}
 		sp.patches = d.somePatches()
@@ -673,6 +686,9 @@ func genC03(seed int64, tier string) []caseOut {
 				dl["updateCommitment"] = commitmentOf(genKey(r, "P-256").jwk(), code)
 			case "delta.patch":
 				dl["patches"] = A{M{"action": "add-also-known-as", "uris": A{"https://changed.example"}}}
+				if r.Intn(2) == 0 { // a one-character change outside ASCII (Ł vs A share their low byte)
+					dl["patches"] = A{M{"action": "add-also-known-as", "uris": A{"https://aka.example/Ł"}}}
+				}
 			}
 			addVariant("modified:"+mod, jcs(req), false)
 		}
